@@ -44,15 +44,21 @@ class SetOcc(Contract):
     modifies = ('occ', 'chemorder', 'g_pos')
 
     def pre(self, s):
-        return And(WFall(s.self), s.v['ind'] >= 0, s.v['ind'] < s.self.occ.len)
+        # every integer is a legal argument: -len <= ind < len names a site (python-style negative indices), anything else is refused
+        return WFall(s.self)
+
+    @staticmethod
+    def site(s):
+        """the site an index names"""
+        return ite(s.v['ind'] < 0, s.v['ind'] + s.self.occ.len, s.v['ind'])
 
     # from the property: every declared species from vacancy (-1) to the last solute (Nchem-1) can be
-    # placed; undeclared species are rejected
-    raises = {'IndexError': lambda s: Or(s.v['c'] < -1, s.v['c'] >= s.self.Nchem)}
+    # placed; undeclared species and undefined sites are rejected
+    raises = {'IndexError': lambda s: Or(s.v['c'] < -1, s.v['c'] >= s.self.Nchem, s.v['ind'] < -s.self.occ.len, s.v['ind'] >= s.self.occ.len)}
 
     def ghost_exit(self, old, new):
         o = old.self
-        ind, c = old.v['ind'], old.v['c']
+        ind, c = SetOcc.site(old), old.v['c']
         corig, p = o.occ[ind], o.g_pos[ind]
         return {'g_pos': (o.occ.len, lambda i: ite(corig == c, o.g_pos[i],
                                             ite(i == ind, o.chemorder.lenof(c),
@@ -61,7 +67,7 @@ class SetOcc(Contract):
 
     def post(self, old, new, result):
         o, n = old.self, new.self
-        ind, c = old.v['ind'], old.v['c']
+        ind, c = SetOcc.site(old), old.v['c']
         corig = o.occ[ind]
         K = o.Nchem
         return {
@@ -151,7 +157,7 @@ class SetOccC(_SupercellConcrete, SetOcc):
 
     def concrete_states(self, rng, tier):
         for sup in self.small_supercells(rng, tier):
-            for ind in range(len(sup.occ)):
+            for ind in range(-len(sup.occ) - 2, len(sup.occ) + 2):          # incl. negative (python-style) and out-of-range indices
                 for c in range(-3, sup.Nchem + 2):
                     s2 = sup.copy()
                     yield s2, (ind, c)
